@@ -375,6 +375,14 @@ func (c *UConn) handshakeContext(ctx context.Context) (ret error) {
 	if c.isClient {
 		err := c.BuildHandshakeState()
 		if err != nil {
+			if c.quic != nil {
+				// UQUICConn.Start is waiting on blockedc: report the failure the
+				// same way a failed handshake is reported instead of leaving it
+				// parked forever.
+				c.handshakeErr = fmt.Errorf("%w%.0w", err, AlertError(alertInternalError))
+				close(c.quic.blockedc)
+				close(c.quic.signalc)
+			}
 			return err
 		}
 		verifEmit(c.Conn, "hello_rebuilt", c.HandshakeState.Hello.Raw)
